@@ -17,6 +17,14 @@ by `SyncSleep`; every engine sleep lets the fake program advance exactly one sch
 and returns when the fake has acknowledged it (or has exited and is a zombie), so file
 contents and the program's life change ONLY inside engine sleeps and a run is a deterministic
 function of the schedule.  Mode "async": nothing is replaced except the sleep length.
+
+Launcher scenarios (`case["launcher"]` = "fg" | "bg"): the engine is configured with an sh
+wrapper script (written per case, LAUNCHER_SH) that runs the fake program as its child and
+waits for it; the hand-shake then treats the launcher's exit as "the program has ended" (that
+is what the engine's poll() sees).  After every propagation of an external engine all
+processes started for it are looked up by the control-file path in their environment
+(`program_procs`), given GRACE seconds to disappear, reported in obs["program_alive"] /
+obs["still_writing"], and killed.
 """
 from __future__ import annotations
 
